@@ -8,6 +8,7 @@ import (
 	"os"
 	"path/filepath"
 	"regexp"
+	"slices"
 	"strconv"
 	"strings"
 
@@ -71,12 +72,7 @@ func parserRequestURL(c *Client, req *Request) error {
 	}
 
 	// Set path parameters from the request and client.
-	req.path.VisitAll(func(key, val string) {
-		uri = strings.ReplaceAll(uri, ":"+key, val)
-	})
-	c.path.VisitAll(func(key, val string) {
-		uri = strings.ReplaceAll(uri, ":"+key, val)
-	})
+	uri = replacePathParams(uri, *req.path, *c.path)
 
 	// Set the URI in the raw request.
 	req.RawRequest.SetRequestURI(uri)
@@ -100,6 +96,37 @@ func parserRequestURL(c *Client, req *Request) error {
 	req.RawRequest.URI().SetHash(hashSplit[1])
 
 	return nil
+}
+
+// replacePathParams substitutes ":key" in uri with the request-level value of key or,
+// if there is none, the client-level one. Keys are applied longest first (ties in
+// lexical order): the result does not depend on map iteration order and ":id" never
+// rewrites a part of ":idx".
+func replacePathParams(uri string, reqParams, clientParams PathParam) string {
+	keys := make([]string, 0, len(reqParams)+len(clientParams))
+	for k := range reqParams {
+		keys = append(keys, k)
+	}
+	for k := range clientParams {
+		if _, ok := reqParams[k]; !ok {
+			keys = append(keys, k)
+		}
+	}
+	slices.SortFunc(keys, func(a, b string) int {
+		if len(a) != len(b) {
+			return len(b) - len(a)
+		}
+		return strings.Compare(a, b)
+	})
+
+	for _, k := range keys {
+		val, ok := reqParams[k]
+		if !ok {
+			val = clientParams[k]
+		}
+		uri = strings.ReplaceAll(uri, ":"+k, val)
+	}
+	return uri
 }
 
 // parserRequestHeader merges client and request headers, and sets headers automatically based on the request data.
